@@ -289,6 +289,9 @@ pub fn impl_(ctx: &Context, input: &DeriveInput) -> TokenStream {
                     #init_ident::#ident #pat => {
                         let __flatty_offset = <#self_ident<#self_args>>::DATA_OFFSET;
                         let (__flatty_tag_bytes, __flatty_bytes) = __flatty_bytes.split_at_mut(__flatty_offset);
+                        // Initialize exactly the bytes the reference returned by `ptr_from_bytes` covers.
+                        let __flatty_len = ::flatty::utils::floor_mul(__flatty_bytes.len(), <#self_ident<#self_args> as FlatBase>::ALIGN);
+                        let __flatty_bytes = __flatty_bytes.get_unchecked_mut(..__flatty_len);
                         #body
                     }
                 }
